@@ -40,7 +40,7 @@ pub struct Plan {
 fn gen(seed: u64, tier: Tier) -> Plan {
     let mut rng = Rng::new(seed);
     let n = rng.range(5, if tier == Tier::Quick { 60 } else { 200 });
-    let kinds = ["announce", "announce", "announce", "announce-fake", "round", "round", "complete-ok", "complete-ok", "complete-ok", "complete-garbage", "complete-wrong", "fail", "fail", "disconnect", "request-then-announce"];
+    let kinds = ["announce", "announce", "announce", "announce-fake", "round", "round", "complete-ok", "complete-ok", "complete-ok", "complete-garbage", "complete-wrong", "fail", "fail", "disconnect", "request-then-announce", "request-only"];
     let ops = (0..n).map(|_| Op { k: rng.pick(&kinds).to_string(), a: rng.below(16), b: rng.below(16) }).collect();
     Plan {
         seed,
@@ -60,7 +60,7 @@ impl Scenario for C16 {
     fn meta(&self) -> Meta {
         Meta {
             level: "exploration",
-            rule: "run = one real node (batch size in {1,2,3,5,10}) with 2-3 scripted peers authenticated through the real handshake (one of them possibly without a fetch url); universe of 4..10 real chain blocks plus 2 fork blocks plus fake hashes; 5..60/200 operations from {announce a block by a peer (same block by several peers, any height order), announce an unknown hash, timer round (2.1 s + routing timer), complete a pending fetch with the right block / an undecodable body / a different block, fail a pending fetch, disconnect a peer}; after each operation everything except fetch completions runs to quiescence. Oracle at the I/O boundary after every operation: per peer the fetches in flight never exceed the batch size; no (peer, hash) is requested while already in flight; within one batch the heights requested from one peer are non-decreasing and no never-requested lower height announced by that peer is skipped; at the end (30 rounds with every fetch succeeding) every announced real block the node still lacks has been requested at least once from a peer with a url; in the persistent-failure variant a block that always fails is requested at most 501 times over 520 rounds. distinct_nontrivial = distinct op-sequence digests with >= 1 quota-full moment or >= 1 failed fetch.",
+            rule: "run = one real node (batch size in {1,2,3,5,10}) with 2-3 scripted peers authenticated through the real handshake (one of them possibly without a fetch url); universe of 4..10 real chain blocks plus 2 fork blocks plus fake hashes; 5..60/200 operations from {announce a block by a peer (same block by several peers, any height order), announce an unknown hash, timer round (2.1 s + routing timer), complete a pending fetch with the right block / an undecodable body / a different block, fail a pending fetch, disconnect a peer, the consensus processor's request for a block (missing parent) together with / without the peer's own announcement of it}; after each operation everything except fetch completions runs to quiescence. Oracle at the I/O boundary after every operation: per peer the fetches in flight never exceed the batch size; no (peer, hash) is requested while already in flight; within one batch the heights requested from one peer are non-decreasing and no never-requested lower height announced by that peer is skipped; at the end (30 rounds with every fetch succeeding) every announced real block the node still lacks has been requested at least once from a peer with a url; in the persistent-failure variant a block that always fails is requested at most 501 times over 520 rounds. distinct_nontrivial = distinct op-sequence digests with >= 1 quota-full moment or >= 1 failed fetch.",
             real: &["BlockchainSyncState", "RoutingThread::process_incoming_block_hash/fetch_next_blocks/process_network_event/process_timer_event/process_event", "Network::process_incoming_block_hash", "VerificationThread::verify_block", "ConsensusThread (BlockFetched)", "handshake"],
             stubs: &["scripted peers on SimNet", "fetch completions chosen by the scenario", "SimClock"],
             assumptions: &["in flight = requested through InterfaceIO::fetch_block_from_peer and not yet completed by the (simulated) network controller"],
@@ -250,6 +250,19 @@ impl Scenario for C16 {
                         sim.ext_send(c, Message::BlockHeaderHash(hash, id).serialize());
                         announced.push((idx, hash, id));
                         r.fault("fetch_request_and_announcement_in_one_round", 1);
+                    }
+                }
+                "request-only" => {
+                    // the consensus processor asks for a block (a missing parent) that no peer announces: only
+                    // the router's timer round can queue and request it
+                    let (c, idx, _) = peer_conn[(op.a % np) as usize];
+                    let u = universe[(op.b as usize) % universe.len()];
+                    let (hash, id) = (w.recs[u].hash, w.recs[u].id);
+                    let lowest = block_on(sim.nodes[n].blockchain_lock.read()).lowest_acceptable_block_id;
+                    if sim.conns[c].open && id > lowest {
+                        sim.nodes[n].q_routing.push_back(saito_core::core::routing_thread::RoutingEvent::BlockFetchRequest(idx, hash, id));
+                        announced.push((idx, hash, id));
+                        r.fault("fetch_request_without_announcement", 1);
                     }
                 }
                 "round" => {
